@@ -195,14 +195,15 @@ impl Ctl {
     }
     /// count a dispatch to `target`; returns the fault mode if the armed fault hits it
     fn hit(&self, target: &str) -> Option<FaultMode> {
+        // every dispatch is counted (the single-fault sweep enumerates these sites)
+        let mut c = self.counters.borrow_mut();
+        let n = c.entry(target.to_string()).or_insert(0);
+        *n += 1;
         let f = self.fault.borrow();
         let f = f.as_ref()?;
         if f.target != target {
             return None;
         }
-        let mut c = self.counters.borrow_mut();
-        let n = c.entry(target.to_string()).or_insert(0);
-        *n += 1;
         if *n == f.nth && !self.fault_fired.get() {
             self.fault_fired.set(true);
             match f.mode {
@@ -918,6 +919,11 @@ impl Chain {
     }
 
     /// drop old events to keep memory flat (monitors consume per step)
+    /// dispatch sites (target -> number of dispatches) of the most recent transaction
+    pub fn last_sites(&self) -> BTreeMap<String, u32> {
+        self.ctl.counters.borrow().clone()
+    }
+
     pub fn stats(&self) -> BTreeMap<&'static str, u64> {
         self.ctl.stats.borrow().clone()
     }
